@@ -41,6 +41,20 @@ func genContent(k, seed, n int) []byte {
 			}
 		}
 		return b
+	case 6: // incompressible first, compressible after
+		b := NewRng(uint64(seed)).Bytes(n)
+		for i := n / 2; i < n; i++ {
+			b[i] = byte(i % 7)
+		}
+		return b
+	case 7: // alternating 64 KiB stretches: incompressible, compressible, …
+		b := NewRng(uint64(seed)).Bytes(n)
+		for i := range b {
+			if i/65536%2 == 1 {
+				b[i] = byte(i % 7)
+			}
+		}
+		return b
 	default:
 		b := NewRng(uint64(seed)).Bytes(n)
 		for i := 0; i < n/2; i++ {
